@@ -13,11 +13,29 @@ import es_ref as R
 from luqum.elasticsearch import ElasticsearchQueryBuilder
 from luqum.parser import parser
 
+class ONESHOT:
+    """a spec given as a one-shot iterable (a generator, as SchemaAnalyzer.object_fields() returns): materialised afresh for every builder"""
+
+    def __init__(self, names):
+        self.names = list(names)
+
+    def fresh(self):
+        return (n for n in self.names)
+
+    def __iter__(self):
+        return iter(self.names)
+
+
+def materialise(cfgd):
+    return {k: (v.fresh() if isinstance(v, ONESHOT) else v) for k, v in cfgd.items()}
+
+
 CONFIGS = []
-for default in ("should", "must"):
+for default in ("".join(["sho", "uld"]), "".join(["mu", "st"])):      # equal to, but not the same object as, the builder's constants
     for nested in (None, {"n": ["x", "y"]}, {"n": {"x": None, "y": None, "m": ["z"]}}, {"n": {"m": ["z"]}}):
         for objs, subs in ((None, None), (["o.x"], None), (["o.x"], ["t.raw"]), ({"o": ["x"]}, ["t.raw", "n.x.raw"]),
-                           (["o.x"], []), ([], ["t.raw"]), ([], []), ({}, ())):      # declared but empty is not `undeclared`
+                           (["o.x"], []), ([], ["t.raw"]), ([], []), ({}, ()),      # declared but empty is not `undeclared`
+                           (ONESHOT(["o.x"]), ONESHOT(["t.raw"])), (ONESHOT(["o.x"]), None)):      # any iterable of names is accepted
             CONFIGS.append({"default_operator": default, "nested_fields": nested, "object_fields": objs, "sub_fields": subs})
 
 EXTRA = ["o:c", "n:d", "o.y:c", "t.raw:b", "n:(m:g)", "n.m:g", "o:(x:c)", "o:(y:c)", "q.r:s", "n:(x:d OR z)", "n.x.raw:d",
@@ -39,6 +57,7 @@ def queries(max_leaves):
 
 
 def expected(t, cfgd):
+    cfgd = {k: (list(v) if isinstance(v, ONESHOT) else v) for k, v in cfgd.items()}
     cfg = {"nested_fields": cfgd["nested_fields"], "sub_fields": set(cfgd["sub_fields"]) if cfgd["sub_fields"] is not None else None,
            "object_fields": (R.spec_paths(cfgd["object_fields"]) if isinstance(cfgd["object_fields"], dict) else set(cfgd["object_fields"]))
            if cfgd["object_fields"] is not None else None}
@@ -63,7 +82,7 @@ def check(item):
         n += 1
         exp = expected(t, cfgd)
         try:
-            ElasticsearchQueryBuilder(**cfgd)(t)
+            ElasticsearchQueryBuilder(**materialise(cfgd))(t)
             got = None
         except Exception as e:  # noqa: BLE001
             got = type(e).__name__
